@@ -597,12 +597,23 @@ RawChecks(ln) ==
     THEN << Chk("C14", "no-unbarriered-move-of-pointer-components", ~(ln.raw.copies > 0 /\ ln.raw.zeros > 0)) >>
     ELSE <<>>
 
+(* C08: the ghost after a batch call is the fold of the single-entity steps over the entities that matched, so the   *)
+(* observed world after a batch call has to be that world: entities, components, values, targets.                    *)
+BatchStateChecks(ln, w2) ==
+    IF ln.op \in {"BatchExchange", "BatchSetRelation", "BatchRemove", "NewBatch"} /\ ~ln.res.panic
+    THEN LET E == ln.obs.ents IN
+         << Chk("C08", "batch-leaves-the-state-of-the-single-operations",
+                /\ { E[i].e : i \in DOMAIN E } = w2.alive /\ Len(E) = Cardinality(w2.alive)
+                /\ \A i \in DOMAIN E : EntOK(w2, E[i]) /\ EntValsOK(w2, E[i]) /\ EntTgtOK(w2, E[i])) >>
+    ELSE <<>>
+
 AllChecks(ln, w, r) ==
     IF r.skip THEN r.c
     ELSE r.c \o ObsChecks(r.g, ln.obs) \o PoolChecks(ln, w, r.g)
              \o (IF "sweep" \in DOMAIN ln THEN SweepChecks(r.g, ln.sweep) ELSE <<>>)
              \o (IF ln.op = "NewWorld" THEN <<>> ELSE EventChecks(w, r.g, ln.events, r.evs))
              \o RawChecks(ln)
+             \o BatchStateChecks(ln, r.g)
 
 ---------------------------------------------------------------------------
 (* Layer-2 conformance: the hidden state logged by the hook (World.VerifShape) evolves exactly as     *)
